@@ -5,14 +5,16 @@ import Srctools.Gen.Tok
 /-! Driver for the concrete chunked tokenizer model TokC (property C03).
 requests:
   {"op":"run","opts":[b×7],"chunks":[[cp…]…],"str":b,"fold":[[cp,[cp…]]…]}
-      → {"toks":[[kind,[cp…],line]…],"err":null|[id,arg,line]}          (same shape as drv_tok "run")
+      → {"toks":[[kind,[cp…],line]…],"err":null|[id,arg,line],"calls":n}  (drv_tok "run" shape + number of
+        `_next_char` calls up to and including the one that returned EOF / raised)
       "str":true = `Tokenizer(str)` (the single chunk is `_cur_chunk`), false = `Tokenizer(iterable)`
   {"op":"exh","s":[cp…],"fold":[…]}
-      → {"a":[run×128],"n":N,"cdiff":[[oi,ci,run]…]}
+      → {"a":[run×128],"n":N,"cdiff":[[oi,ci,run]…],"calls":[n×128],"callsdiff":[[oi,ci,n]…]}
       for every option set oi (bit j of oi = option j) the abstract run TokA on s, and every TokC run
       that DIFFERS from it: ci < N enumerates the chunkings — ci = 2*m+e, the text is cut after
       position k iff bit k of m is set, e=1 inserts an empty chunk before every chunk and at the end;
-      ci = N is `Tokenizer(str)`.
+      ci = N is `Tokenizer(str)`. "calls"[oi] = `_next_char` calls of the `Tokenizer(str)` run, "callsdiff" = every
+      chunking whose call count differs from it.
 -/
 open Lean Tok
 
@@ -77,7 +79,8 @@ def handle (j : Json) : Except String Json := do
         | [c] => pure (TokC.Src.ofString c)
         | _ => throw "str: need exactly one chunk"
       else pure (TokC.Src.ofChunks chunks)
-    pure (runJson (TokC.run Gen.Tok.tables o f src))
+    pure ((runJson (TokC.run Gen.Tok.tables o f src)).setObjVal! "calls"
+      (Json.num (JsonNumber.fromNat (TokC.runCalls Gen.Tok.tables o f src))))
   | "exh" =>
     let s ← Wire.strOfCodes (← j.getObjVal? "s")
     let f ← foldOf (← j.getObjVal? "fold")
@@ -86,15 +89,24 @@ def handle (j : Json) : Except String Json := do
       (List.range n).map (fun ci => (ci, TokC.Src.ofChunks (chunking s ci))) ++ [(n, TokC.Src.ofString s)]
     let mut as : Array Json := #[]
     let mut diffs : Array Json := #[]
+    let mut calls : Array Json := #[]
+    let mut cdiffs : Array Json := #[]
+    let num (k : Nat) : Json := Json.num (JsonNumber.fromNat k)
     for oi in [0:128] do
       let o := optsOfIndex oi
       let a := Tok.run Gen.Tok.tables o f s
       as := as.push (runJson a)
+      let k0 := TokC.runCalls Gen.Tok.tables o f (TokC.Src.ofString s)
+      calls := calls.push (num k0)
       for (ci, src) in srcs do
         let c := TokC.run Gen.Tok.tables o f src
         if c != a then
-          diffs := diffs.push (Json.arr #[Json.num (JsonNumber.fromNat oi), Json.num (JsonNumber.fromNat ci), runJson c])
-    pure (Json.mkObj [("a", Json.arr as), ("n", Json.num (JsonNumber.fromNat n)), ("cdiff", Json.arr diffs)])
+          diffs := diffs.push (Json.arr #[num oi, num ci, runJson c])
+        let k := TokC.runCalls Gen.Tok.tables o f src
+        if k != k0 then
+          cdiffs := cdiffs.push (Json.arr #[num oi, num ci, num k])
+    pure (Json.mkObj [("a", Json.arr as), ("n", num n), ("cdiff", Json.arr diffs),
+                      ("calls", Json.arr calls), ("callsdiff", Json.arr cdiffs)])
   | "chunking" =>   -- self-test of the enumeration shared with the harness
     let s ← Wire.strOfCodes (← j.getObjVal? "s")
     let ci ← j.getObjValAs? Nat "ci"
